@@ -86,9 +86,6 @@ def check_graph(case, sub="graphs"):
         back = guarded(sub, icls, rc.density_to_graph, sv.dm(v))
         if not np.array_equal(adj_of(back, n), adj):
             raise Violation(sub, "graph-mismatch", "density_to_graph", icls, "recovered another graph")
-        rho3 = guarded(sub, icls, rc.stabilizer_to_density, st_tab)
-        if rho3 is None or np.linalg.norm(np.asarray(rho3) - sv.dm(v)) > 1e-8:
-            raise Violation(sub, "state-mismatch", "stabilizer_to_density", icls, "not |G><G|")
         # the list form [(1.0, tableau)] that graph_to_stabilizer itself returns
         rho4 = guarded(sub, icls + ":list", rc.stabilizer_to_density, res)
         if rho4 is None or np.linalg.norm(np.asarray(rho4) - sv.dm(v)) > 1e-8:
@@ -99,6 +96,11 @@ def check_graph(case, sub="graphs"):
         st2 = guarded(sub, icls, rc.density_to_stabilizer, sv.dm(v))
         if rp.group_key(rp.stabilizer_paulis(st2[0][1]), n) != want:
             raise Violation(sub, "state-mismatch", "density_to_stabilizer", icls, "does not denote |G>")
+        # last, because signed presentations hit a known finding here
+        sgn = "graph:negative_sign" if np.any(st_tab.phase) else "graph:positive_signs"
+        rho3 = guarded(sub, sgn, rc.stabilizer_to_density, st_tab)
+        if rho3 is None or np.linalg.norm(np.asarray(rho3) - sv.dm(v)) > 1e-8:
+            raise Violation(sub, "state-mismatch", "stabilizer_to_density", sgn, "not |G><G|")
     return Info(nontrivial=(n >= 3 and mask != 0 and "non_graph_form" in cl), classes=cl)
 
 
